@@ -2,6 +2,7 @@ package main
 
 import (
 	"fmt"
+	"sort"
 
 	"github.com/advancedclimatesystems/gonnx/ops/opset13"
 	"verifmc/hx"
@@ -63,6 +64,8 @@ func repCases() []repCase {
 	add("Cast", []hx.Attr{hx.AInt("to", 1)}, 1, "same-type", f(1, 2, 3))
 	add("MatMul", nil, 1, "batched", f(1, 2, 2, 3), f(2, 3, 2))
 	add("MatMul", nil, 1, "vector-B", f(1, 2, 3), f(2, 3))
+	add("MatMul", nil, 1, "vector-A", f(1, 3), f(2, 3, 2))
+	add("MatMul", nil, 1, "vector-A-batched-B", f(1, 3), f(2, 2, 3, 2))
 	add("Gemm", []hx.Attr{hx.AFloat("alpha", 0.5), hx.AFloat("beta", 2), hx.AInt("transB", 1)}, 1, "", f(1, 2, 3), f(2, 2, 3), f(3, 2))
 	add("Gemm", nil, 1, "bias(1,N)", f(1, 2, 3), f(2, 3, 2), f(3, 1, 2))
 	add("LinearRegressor", []hx.Attr{hx.AFloats("coefficients", 0.5, -1, 2, 0.25, 1, -0.5), hx.AInt("targets", 2), hx.AFloats("intercepts", 0.5, -0.25)}, 1, "", f(1, 2, 3))
@@ -129,6 +132,18 @@ func repCases() []repCase {
 	add("Constant", []hx.Attr{hx.ATensor("value", ref.FromF(ref.F32, []int{1}, 2.5), "typed")}, 1, "single-element-typed")
 	add("Constant", []hx.Attr{hx.AFloat("value_float", 2.5)}, 1, "value_float")
 	add("Constant", []hx.Attr{hx.AInts("value_ints", 1, 2, 3)}, 1, "value_ints")
+	// a tensor value of every storable element type, in the typed field of that type and as raw bytes (decoders differ
+	// per field: some convert into a new array, some wrap the field's own array)
+	for _, dt := range []ref.DT{ref.F64, ref.I8, ref.I16, ref.I32, ref.I64, ref.U8, ref.U16, ref.U32, ref.U64, ref.Bool} {
+		v := ref.Fill(dt, []int{3}, func(i int) float64 { return float64(i % 2) })
+		if dt != ref.Bool {
+			v = ref.Fill(dt, []int{3}, func(i int) float64 { return float64(1 + i) })
+		}
+		add("Constant", []hx.Attr{hx.ATensor("value", v, "typed")}, 1, "typed-"+dt.String())
+		if dt == ref.I64 || dt == ref.U64 || dt == ref.F64 || dt == ref.U8 {
+			add("Constant", []hx.Attr{hx.ATensor("value", v, "raw")}, 1, "raw-"+dt.String())
+		}
+	}
 	// element types beyond the numeric ones through the operators whose gate allows every type
 	for _, dt := range []ref.DT{ref.C64, ref.C128, ref.Str, ref.Bool, ref.U16} {
 		d := ref.Distinct(dt, []int{2, 3})
@@ -140,6 +155,62 @@ func repCases() []repCase {
 		add("Flatten", []hx.Attr{hx.AInt("axis", 1)}, 1, "dtype="+dt.String(), d)
 		add("Gather", []hx.Attr{hx.AInt("axis", 0)}, 1, "dtype="+dt.String(), d, ref.I64Vec(1, 0))
 		add("Expand", nil, 1, "dtype="+dt.String(), ref.Distinct(dt, []int{1, 3}), ref.I64Vec(2, 3))
+	}
+	// every element type an operator's gate accepts for its first input, through that operator's first representative
+	// case (the same shapes and attributes; float32 operands replaced by operands of the other type with small non-zero
+	// values): type switches have one arm per type, and an arm can hand on its operand where its neighbours copy
+	{
+		firstOf := map[string]int{}
+		for i, r := range out {
+			if _, ok := firstOf[r.Op]; !ok {
+				firstOf[r.Op] = i
+			}
+		}
+		names := append([]string{}, opset13.GetOpNames()...)
+		sort.Strings(names) // the registry is a map: a fixed order keeps subject names stable across processes
+		for _, name := range names {
+			i, ok := firstOf[name]
+			if !ok {
+				continue
+			}
+			r := out[i]
+			if len(r.Inputs) == 0 || r.Inputs[0] == nil || r.Inputs[0].DT != ref.F32 {
+				continue
+			}
+			op, err := opset13.GetOperator(name)
+			if err != nil || len(op.GetInputTypeConstraints()) == 0 {
+				continue
+			}
+			// operators that only move data (one generic gorgonia path for every type): one float, one signed, one unsigned type
+			mover := map[string]bool{"Unsqueeze": true, "Transpose": true, "Reshape": true, "Gather": true, "Flatten": true, "Expand": true,
+				"Squeeze": true, "Slice": true, "Shape": true, "Concat": true}[name]
+			for _, g := range op.GetInputTypeConstraints()[0] {
+				dt, ok := hx.DTOf(g)
+				if !ok || dt == ref.F32 || dt == ref.C64 || dt == ref.C128 || dt == ref.Str || dt == ref.Bool {
+					continue
+				}
+				if mover && dt != ref.F64 && dt != ref.I32 && dt != ref.U8 {
+					continue
+				}
+				// admitted by the gate but refused at run time by the pinned tree (`mc probe-dtypes`): Gemm and the recurrent
+				// operators multiply by float32 scalars, gorgonia's MatMul handles floats only - nothing to compare
+				if dt == ref.F64 && (name == "Gemm" || name == "RNN" || name == "GRU" || name == "LSTM") || dt != ref.F64 && name == "MatMul" {
+					continue
+				}
+				ins := make([]*ref.T, len(r.Inputs))
+				for k, t := range r.Inputs {
+					ins[k] = t
+					if t != nil && t.DT == ref.F32 {
+						k := k
+						ins[k] = ref.Fill(dt, t.Shape, func(i int) float64 { return float64(1 + (i+2*k)%5) })
+					}
+				}
+				if _, err := refEval(name, r.Attrs, ins); err != nil {
+					continue // the reference does not model this operator for that type (or refuses the request)
+				}
+				add(name, r.Attrs, r.NOut, "elem="+dt.String(), ins...)
+			}
+		}
 	}
 	add("Reshape", nil, 1, "", f(1, 2, 3), ref.I64Vec(3, -1))
 	add("Flatten", []hx.Attr{hx.AInt("axis", 1)}, 1, "", f(1, 2, 3, 2))
